@@ -1,1 +1,266 @@
 //! Verification hooks: journal (see verif/mod.rs).
+//!
+//! `restore` performs exactly the sequence of `bootstrap::start_server` for an existing journal
+//! (`StateRestorer::load_event_file` → counters/uid → `State::restore_state` →
+//! `restore_jobs_and_queues` → `ServerRef::add_new_tasks` for every batch) on a socket-less
+//! `tako::verif::server::VerifServer`, and reports what came out as plain data.
+//! `prune` wraps the private `prune_journal`.
+use std::path::Path;
+use std::time::Instant;
+
+use chrono::Utc;
+use tako::gateway::TaskSubmit;
+use tako::verif::server::VerifServer;
+use tako::{JobId, Set, WorkerId};
+
+use crate::HQ_VERSION;
+use crate::common::error::HqError;
+use crate::server::event::journal::{JournalReader, JournalWriter};
+use crate::server::job::{JobTaskCounters, JobTaskState};
+use crate::server::state::StateRef;
+use crate::server::verif_access::StateRestorer;
+use crate::transfer::messages::ServerInfo;
+
+pub struct RestoredTask {
+    pub id: u32,
+    pub state: JobTaskState,
+}
+
+pub struct RestoredJob {
+    pub id: u32,
+    pub is_open: bool,
+    pub max_fails: Option<u32>,
+    pub counters: JobTaskCounters,
+    pub n_submits: usize,
+    /// `Job::is_terminated()` of the restored job (what `handle_prune_journal` / `hq job forget` look at)
+    pub is_terminated: bool,
+    pub tasks: Vec<RestoredTask>,
+}
+
+pub struct RestoredBatch {
+    /// (job, task, deps) in the order of `TaskSubmit::tasks`
+    pub tasks: Vec<(u32, u32, Vec<u32>)>,
+    /// (job, task, instance, crash counter)
+    pub adjust: Vec<(u32, u32, u32, u32)>,
+}
+
+pub struct CoreTask {
+    pub job: u32,
+    pub task: u32,
+    pub instance: u32,
+    pub crash_counter: u32,
+    pub deps: Vec<u32>,
+}
+
+pub struct Restored {
+    pub truncate_size: Option<u64>,
+    /// `take_server_uid()` (empty = the journal has no ServerStart)
+    pub server_uid: String,
+    pub job_id_counter: u32,
+    pub worker_id_counter: u32,
+    pub queue_id_counter: u32,
+    pub jobs: Vec<RestoredJob>,
+    /// in the order `restore_jobs_and_queues` returned them
+    pub batches: Vec<RestoredBatch>,
+    /// (queue id, worker resources known)
+    pub queues: Vec<(u32, bool)>,
+    /// `Err` = `add_new_tasks` refused a batch (bootstrap `.unwrap()`s this)
+    pub core_tasks: Result<Vec<CoreTask>, String>,
+    /// the id `State::new_job_id` issues next
+    pub first_job_id: u32,
+    /// the id `AutoAllocState::create_id` issues next
+    pub first_queue_id: u32,
+    /// the tako server restore ran against (its `add_worker` issues the next worker id)
+    pub server: VerifServer,
+}
+
+pub enum RestoreError {
+    /// `load_event_file` failed
+    Load(HqError),
+    /// `restore_jobs_and_queues` failed
+    Jobs(HqError),
+}
+
+fn batch_of(b: &TaskSubmit) -> RestoredBatch {
+    RestoredBatch {
+        tasks: b
+            .tasks
+            .iter()
+            .map(|t| {
+                (
+                    t.id.job_id().as_num(),
+                    t.id.job_task_id().as_num(),
+                    t.task_deps
+                        .iter()
+                        .map(|d| d.job_task_id().as_num())
+                        .collect(),
+                )
+            })
+            .collect(),
+        adjust: b
+            .adjust_instance_id_and_crash_counters
+            .iter()
+            .map(|(id, (inst, crash))| {
+                (
+                    id.job_id().as_num(),
+                    id.job_task_id().as_num(),
+                    inst.as_num(),
+                    *crash,
+                )
+            })
+            .collect(),
+    }
+}
+
+pub fn restore(path: &Path, generated_uid: &str) -> Result<Restored, RestoreError> {
+    // bootstrap::start_server
+    let mut restorer = StateRestorer::default();
+    restorer
+        .load_event_file(path)
+        .map_err(RestoreError::Load)?;
+    let truncate_size = restorer.truncate_size();
+    let server_uid = restorer.take_server_uid();
+    let effective_uid = if !server_uid.is_empty() {
+        server_uid.clone()
+    } else {
+        generated_uid.to_string()
+    };
+    let worker_id_counter = restorer.worker_id_counter();
+    let queue_id_counter = restorer.queue_id_counter();
+    let job_id_counter = restorer.job_id_counter();
+
+    // bootstrap::initialize_server (without sockets)
+    let state_ref = StateRef::new(ServerInfo {
+        version: HQ_VERSION.to_string(),
+        server_uid: effective_uid.clone(),
+        client_host: "verif".to_string(),
+        worker_host: "verif".to_string(),
+        client_port: 0,
+        worker_port: 0,
+        pid: 0,
+        start_date: Utc::now(),
+        journal_path: Some(path.to_path_buf()),
+    });
+    let server = VerifServer::new(effective_uid, worker_id_counter, Default::default());
+    let server_ref = server.server_ref();
+
+    let (new_tasks, new_queues) = {
+        let mut state = state_ref.get_mut();
+        state.restore_state(&restorer);
+        restorer
+            .restore_jobs_and_queues(&mut state, &server_ref)
+            .map_err(RestoreError::Jobs)?
+    };
+
+    let mut jobs: Vec<RestoredJob> = state_ref
+        .get()
+        .jobs()
+        .map(|job| RestoredJob {
+            id: job.job_id.as_num(),
+            is_open: job.is_open,
+            max_fails: job.job_desc.max_fails,
+            counters: job.counters,
+            n_submits: job.submit_descs.len(),
+            is_terminated: job.is_terminated(),
+            tasks: job
+                .tasks
+                .iter()
+                .map(|(id, info)| RestoredTask {
+                    id: id.as_num(),
+                    state: info.state.clone(),
+                })
+                .collect(),
+        })
+        .collect();
+    jobs.sort_by_key(|j| j.id);
+    for j in &mut jobs {
+        j.tasks.sort_by_key(|t| t.id);
+    }
+    let batches: Vec<RestoredBatch> = new_tasks.iter().map(batch_of).collect();
+    let mut queues: Vec<(u32, bool)> = new_queues
+        .iter()
+        .map(|q| (q.queue_id, q.worker_resources.is_some()))
+        .collect();
+    queues.sort();
+
+    // the spawned task in start_server: `senders.server_control.add_new_tasks(new).unwrap()`
+    let mut core_tasks = Ok(());
+    for new in new_tasks {
+        if let Err(e) = server_ref.add_new_tasks(new) {
+            core_tasks = Err(e.to_string());
+            break;
+        }
+    }
+    let core_tasks = core_tasks.map(|_| {
+        let dump = server.dump(Instant::now());
+        let parse = |s: &str| -> (u32, u32) {
+            let (a, b) = s.split_once('@').expect("verif: task id format");
+            (a.parse().unwrap(), b.parse().unwrap())
+        };
+        let mut out: Vec<CoreTask> = dump["tasks"]
+            .as_array()
+            .expect("verif: dump")
+            .iter()
+            .map(|t| {
+                let (job, task) = parse(t["id"].as_str().unwrap());
+                CoreTask {
+                    job,
+                    task,
+                    instance: serde_json::from_value(t["instance_id"].clone()).unwrap(),
+                    crash_counter: t["crash_counter"].as_u64().unwrap() as u32,
+                    deps: t["task_deps"]
+                        .as_array()
+                        .unwrap()
+                        .iter()
+                        .map(|d| {
+                            let d: tako::TaskId = serde_json::from_value(d.clone()).unwrap();
+                            d.job_task_id().as_num()
+                        })
+                        .collect(),
+                }
+            })
+            .collect();
+        out.sort_by_key(|t| (t.job, t.task));
+        out
+    });
+
+    let first_job_id = state_ref.get_mut().new_job_id().as_num();
+    let first_queue_id = crate::server::autoalloc::verif_first_queue_id(queue_id_counter);
+
+    Ok(Restored {
+        truncate_size,
+        server_uid,
+        job_id_counter,
+        worker_id_counter: worker_id_counter.as_num(),
+        queue_id_counter,
+        jobs,
+        batches,
+        queues,
+        core_tasks,
+        first_job_id,
+        first_queue_id,
+        server,
+    })
+}
+
+/// `prune_journal` exactly as `streaming_process` calls it for `EventStreamMessage::PruneJournal`
+/// (reader on the journal, `JournalWriter::create` on the new file), without the rename.
+pub fn prune(
+    in_path: &Path,
+    out_path: &Path,
+    live_jobs: &[u32],
+    live_workers: &[u32],
+) -> Result<(), String> {
+    let live_jobs: Set<JobId> = live_jobs.iter().map(|j| JobId::new(*j)).collect();
+    let live_workers: Set<WorkerId> = live_workers.iter().map(|w| WorkerId::new(*w)).collect();
+    let mut reader = JournalReader::open(in_path).map_err(|e| e.to_string())?;
+    let mut writer = JournalWriter::create(out_path).map_err(|e| e.to_string())?;
+    crate::server::event::journal::verif_prune_journal(
+        &mut reader,
+        &mut writer,
+        &live_jobs,
+        &live_workers,
+    )
+    .map_err(|e| e.to_string())?;
+    writer.finish().map_err(|e| e.to_string())
+}
